@@ -105,7 +105,14 @@ def extract(ctx):
             sort_keys = isinstance(v, ast.Constant) and v.value is True
     facts.write_gen('FactsC17', 'Definition patchset_init_keys : list string := %s.\nDefinition digest_sort_keys : bool := %s.\n'
                     % (facts.coq_strlist(keys), core.cbool(sort_keys)))
-    return dict(init_keys=keys, sort_keys=sort_keys)
+    # tie to the source: coq/gen/PatchSetGen.v is written from $VERIF_REPO/src on every run (harness/props/c17_tie.py)
+    from harness.props import c17_tie
+    return dict(init_keys=keys, sort_keys=sort_keys, translated_from_source=c17_tie.extract(ctx))
+
+
+def generate():
+    from harness.props import c17_tie
+    return c17_tie.generate()
 
 
 # ---------------------------------------------------------------------------------------
@@ -620,12 +627,20 @@ def run(ctx):
         fx = extract(ctx)
         ctx.coverage['extracted_facts'] = fx
     except facts.TieBroken as e:
-        tie = 'fact extraction failed: %s' % e
+        tie = 'translation of pyhf/patchset.py and utils.digest to Gallina / fact extraction failed (harness/props/c17_tie.py, c17.py:extract): %s' % e
     if tie is None:
         ok, txt = core.prove(ctx)
         if not ok:
-            tie = 'proof obligations of props/C17.v no longer check: ' + txt[-1200:]
-    ctx.trusted += ['harness/props/c17.py:extract (python ast -> FactsC17.v: initial keys of the lookup table, sort_keys flag)',
+            why = ('the functions translated from the source no longer coincide with the hand model (coq/TiePatchSet.v, C17_source_is_model_*): '
+                   if ('TiePatchSet' in txt or 'source_is_model' in txt or 'PatchSetGen' in txt) else 'proof obligations of props/C17.v no longer check: ')
+            tie = why + txt[-1200:]
+    if tie is not None and os.path.exists(os.path.join(core.COQ, 'gen', 'FactsC17.v')):
+        core.coq_make(['PatchSet.vo', 'gen/FactsC17.vo'])         # the hand model is run for the correspondence even when a tie theorem no longer checks
+    ctx.trusted += ['harness/props/c17_tie.py + harness/props/tie_translate.py (python ast -> Gallina for utils.digest, Patch.__init__ / name / values / apply, '
+                    'PatchSet.__init__ / __getitem__ / verify / apply; fail closed): C17_source_is_model_* prove the translated definitions equal to the hand '
+                    'model; the reading of the python values (patch objects = positions, the lookup dict = table, json.dumps(sort_keys) = canon, hashlib / '
+                    'jsonpatch / Workspace as opaque functions, private-copy tracking) is stated in the header of coq/gen/PatchSetGen.v',
+                    'harness/props/c17.py:extract (python ast -> FactsC17.v: initial keys of the lookup table, sort_keys flag)',
                     'hashlib digests assumed collision-free (Section hypothesis H_inj of verify_recorded_iff_same/digest_value_sensitive)',
                     'jsonpatch library and pyhf.Workspace schema validation are used as oracles for the apply step (not modelled)']
     ctx.assumptions += ['json.dumps is injective on canonical trees; SHA/MD5 collision freeness',
@@ -641,7 +656,7 @@ def run(ctx):
     sigs = set()
     stats = dict(accepted=0, dup_name=0, dup_values=0, bad_length=0, internal_names=0)
     disagree = []
-    if tie is None or 'fact extraction' not in tie:
+    if tie is None or 'fact extraction' not in tie or os.path.exists(os.path.join(core.COQ, 'gen', 'FactsC17.v')):
         try:
             res = core.coq_eval(ctx, 'docs', HEADER, [model_expr(d, k) for d, k in zip(docs, keys)])
             models = [decode_model(r) for r in res]
